@@ -806,7 +806,39 @@ fn parse_fresh(q: &str) -> Result<String, String> {
 fn fresh_ladder(l: &Lang, thorough: bool) -> Acc {
     let maxd = if thorough { 14 } else { 10 };
     let jobs: Vec<(&str, usize)> = NESTS.iter().flat_map(|c| (1..=maxd).map(move |d| (*c, d))).collect();
-    jobs.par_iter()
+    // the generated sentence set too (C06 only: they are all valid): nothing an earlier parse left behind helps them
+    let sent_acc = if l.run.prop == "C06" {
+        let all = sentences::sentences(thorough);
+        let stride = if thorough { 3 } else { 1 };
+        all.par_iter()
+            .enumerate()
+            .filter(|(i, _)| i % stride == 0)
+            .map(|(_, q)| {
+                let mut acc = Acc::new();
+                let s = render::query(q);
+                acc.evals += 1;
+                match parse_fresh(&s) {
+                    Ok(r) => {
+                        acc.nontrivial += 1;
+                        if r != "accepted" && classify(&s) == Verdict::Valid {
+                            acc.viol(
+                                format!("valid RFC 9535 query is not accepted as the first parse of a fresh process: {:?} -> {}", s, r),
+                                json!({"kind": "parse-fresh", "class": "fresh-process parse of the sentence set", "string": s, "model": "Valid"}),
+                            );
+                        }
+                    }
+                    Err(e) => {
+                        acc.bump("MACHINERY_child_failed", 1);
+                        acc.outcome(|| e);
+                    }
+                }
+                acc
+            })
+            .reduce(Acc::new, Acc::merge)
+    } else {
+        Acc::new()
+    };
+    let ladder_acc = jobs.par_iter()
         .map(|(c, d)| {
             let mut acc = Acc::new();
             let q = nest(c, *d);
@@ -843,7 +875,8 @@ fn fresh_ladder(l: &Lang, thorough: bool) -> Acc {
             }
             acc
         })
-        .reduce(Acc::new, Acc::merge)
+        .reduce(Acc::new, Acc::merge);
+    ladder_acc.merge(sent_acc)
 }
 
 pub fn replay_fresh(case: &Value, run: &Run) -> Acc {
